@@ -16,13 +16,13 @@ from ..harness import _SETUP, qcall, tree_hash
 ID = "C12"
 LEVEL = "exploration"
 BUDGET = {"quick": 640, "thorough": 32000}
-TECHNIQUE = "schedule exploration with a schedule-owning pool (exhaustive per pool call for <= 4 tasks, Hypothesis-drawn joint schedules, eager / lazy) plus a real-process differential tier with worker counts and per-task delays"
+TECHNIQUE = "schedule exploration with a schedule-owning pool (exhaustive per pool call for <= 4 tasks, four fixed permutations per larger call, Hypothesis-drawn joint schedules, eager / lazy) plus a real-process differential tier with worker counts and per-task delays"
 RULE = ("Hypothesis-generated case = entry point in {reader [] selections, reader .iter, level iteration, taste, "
         "colander, combine, chef (parallel vs serial), mandoline 2D, mandoline 3D array, mandoline 3D plotfile, pestle, "
         "whip, chk2plt} x small generated input (1-4 binary files / boxes per pool call where possible). Reference = "
         "identity schedule (and the serial mode where the tool has one). Then (i) for every pool call of the run with "
         "2..4 tasks, every execution order (and, for imap_unordered, every completion order) while the other calls "
-        "keep submission order; (ii) a drawn joint schedule for all calls with the eager / lazy flag; (iii) in 1 of 8 "
+        "keep submission order, and for calls with more tasks four fixed permutations (reversed, rotated, first / last two swapped); (ii) a drawn joint schedule for all calls with the eager / lazy flag; (iii) in 1 of 8 "
         "cases (quick) real multiprocessing / pathos pools with a drawn worker count in {1,2,3,4,8,16} and drawn "
         "per-task delays of 0-20 ms, twice in a row in the same process for chef (stale-worker history). Oracle: "
         "sha256 of every produced file and bit-exact returned values equal the reference. evaluations counts cases; "
@@ -45,6 +45,8 @@ def cases(draw, tier="quick"):
     m = spec["mesh"]
     m["nb0"] = [max(n, 2) for n in m["nb0"]]        # several boxes, so that pool calls have several tasks
     m["m"] = min(m["m"], 2)
+    if len(plotgen.build_mesh(m)[0]["boxes"]) < 2:
+        m["m"] = 1                                  # a single level-0 box would give one-task pool calls only
     if entry == "chef_ct":
         # two Cantera-based cooks in a row at different pressures (history: stale worker state must not leak)
         from . import c11
@@ -344,9 +346,21 @@ def check_case(case, ctx):
 
     # (i) exhaustive per call
     for ci, (kind, n, _, _) in enumerate(log):
-        if not 2 <= n <= 4:
-            if n > 4:
-                ctx.label("call>4tasks (sampled only)")
+        if n > 4:
+            # too many orders to enumerate: reversed, rotated by one, first two swapped, last two swapped
+            ctx.label(f"sampled-orders:{kind}:>4")
+            for name, code in (("reversed", [n - 1 - j for j in range(n)]), ("rotated", [1] + [0] * (n - 1)),
+                               ("first two swapped", [1]), ("last two swapped", [0] * (n - 2) + [1])):
+                pad = [[]] * ci + [list(code)]
+                variants = [dict(exec=pad, lazy=ci % 2 == 1)]
+                if kind == "imap_unordered":
+                    variants += [dict(comp=pad, lazy=False)]
+                for sc in variants:
+                    msg = run_with(sc, f"pool call #{ci} ({kind}, {n} tasks) order {name} lazy={sc.get('lazy')}")
+                    if msg:
+                        return v + [msg]
+            continue
+        if n < 2:
             continue
         ctx.label(f"exhaustive:{kind}:{n}")
         for code in itertools.product(*[range(n - j) for j in range(n)]):
